@@ -35,6 +35,7 @@ For integer domains use CP. For exact cover use DLX.
 Don't use for: optimization (MILP), continuous variables (simplex/gradient).
 """
 
+import os
 from collections.abc import Sequence
 from heapq import heapify, heappop, heappush
 
@@ -43,6 +44,10 @@ from solvor.types import Result, Status
 __all__ = ["solve_sat"]
 
 UNDEF = 2  # Variable state: 0=False, 1=True, 2=Undefined
+
+# Verification hook (inactive unless SOLVOR_VERIF=1 and a sink is installed): reports learned clauses and loop ticks.
+_VERIF = os.environ.get("SOLVOR_VERIF") == "1"
+_verif_sink = None
 
 
 def lit_var(lit: int) -> int:
@@ -420,6 +425,8 @@ def solve_sat(
     next_restart = luby_factor * luby(luby_idx)
 
     while True:
+        if _VERIF and _verif_sink is not None:
+            _verif_sink(("tick",))
         if conflict >= 0 or conflict == -2:
             if dec_level == 0 or conflict == -2:
                 if all_solutions:
@@ -443,6 +450,8 @@ def solve_sat(
             clause_idx = len(clauses) + len(learned)
             learned.append(learned_clause)
             lbd_scores.append(lbd)
+            if _VERIF and _verif_sink is not None:
+                _verif_sink(("learned", list(learned_clause), False))
 
             if len(learned_clause) == 2:
                 big.add(learned_clause[0], learned_clause[1], clause_idx)
@@ -494,6 +503,8 @@ def solve_sat(
             clause_idx = len(clauses) + len(learned)
             learned.append(blocking)
             lbd_scores.append(n_vars)
+            if _VERIF and _verif_sink is not None:
+                _verif_sink(("learned", list(blocking), True))
 
             if len(blocking) >= 2:
                 add_watch(blocking[0], clause_idx)
